@@ -1221,19 +1221,78 @@ def r123(ctx, repo):
 # ----------------------------------------------------------------------
 # R12.4 quantile levels
 
+def split_tuple_assigns(func):
+    """copy of `func` in which `a, b = e1, e2` is written as two
+    assignments when no right-hand side reads a name another element
+    assigns (then the order does not matter)"""
+    import copy
+    from ..core import link
+    new = copy.deepcopy(func)
+
+    def process(stmts):
+        out = []
+        for st in stmts:
+            for fld in ("body", "orelse", "finalbody"):
+                if isinstance(getattr(st, fld, None), list) \
+                        and not isinstance(st, (ast.FunctionDef,
+                                                ast.ClassDef)):
+                    setattr(st, fld, process(getattr(st, fld)))
+            if isinstance(st, ast.Try):
+                for h in st.handlers:
+                    h.body = process(h.body)
+            if isinstance(st, ast.Assign) and len(st.targets) == 1 \
+                    and isinstance(st.targets[0], ast.Tuple) \
+                    and isinstance(st.value, ast.Tuple) \
+                    and len(st.targets[0].elts) == len(st.value.elts) \
+                    and all(isinstance(t, ast.Name)
+                            for t in st.targets[0].elts):
+                tg = [t.id for t in st.targets[0].elts]
+                indep = all(not (names_in(v) & (set(tg) - {t}))
+                            for t, v in zip(tg, st.value.elts))
+                if indep:
+                    for t, v in zip(st.targets[0].elts, st.value.elts):
+                        out.append(ast.copy_location(
+                            ast.Assign(targets=[t], value=v), st))
+                    continue
+            out.append(st)
+        return out
+    new.body = process(new.body)
+    ast.fix_missing_locations(new)
+    link(new)
+    new.parent = getattr(func, "parent", None)
+    return new
+
+
 def r124(ctx, repo):
     f = repo.func(KDC, "get_quantile_levels")
     params = [a.arg for a in f.args.args]
     for p in ("density", "x", "y", "xp", "yp", "q"):
         if p not in params:
             raise AnalysisError(f"get_quantile_levels: parameter {p} lost")
-    # one mask for both coordinates
-    masks = {}
+    # ordinary shapes first: `a, b = e1, e2` with independent elements is
+    # two assignments
+    f = split_tuple_assigns(f)
+    single = {}
     for n in walk(f):
-        if isinstance(n, ast.Assign) and isinstance(
-                n.targets[0], ast.Name) and isinstance(n.value, ast.Call) \
-                and last_attr(n.value) == "get_bad_vals":
-            masks[n.targets[0].id] = n
+        if isinstance(n, ast.Assign) and len(n.targets) == 1 \
+                and isinstance(n.targets[0], ast.Name):
+            single.setdefault(n.targets[0].id, []).append(n.value)
+
+    def mask_of(e, flips=0, depth=0):
+        """(get_bad_vals call, number of negations) a mask expression
+        stands for"""
+        if depth > 6:
+            return None
+        if isinstance(e, ast.UnaryOp) and isinstance(e.op, ast.Invert):
+            return mask_of(e.operand, flips + 1, depth + 1)
+        if isinstance(e, ast.Call) and last_attr(e) in (
+                "logical_not", "invert") and len(e.args) == 1:
+            return mask_of(e.args[0], flips + 1, depth + 1)
+        if isinstance(e, ast.Call) and last_attr(e) == "get_bad_vals":
+            return e, flips
+        if isinstance(e, ast.Name) and len(single.get(e.id, [])) == 1:
+            return mask_of(single[e.id][0], flips, depth + 1)
+        return None
     purged = {}
     for n in walk(f):
         if isinstance(n, ast.Assign) and isinstance(
@@ -1241,19 +1300,20 @@ def r124(ctx, repo):
                 and isinstance(n.value, ast.Subscript) and isinstance(
                 n.value.value, ast.Name) \
                 and n.value.value.id == n.targets[0].id:
-            sl = n.value.slice
-            if isinstance(sl, ast.UnaryOp) and isinstance(
-                    sl.op, ast.Invert) and isinstance(sl.operand, ast.Name):
-                purged[n.targets[0].id] = sl.operand.id
-    ok = (set(purged) == {"xp", "yp"} and len(set(purged.values())) == 1
-          and list(purged.values())[0] in masks and {
-              txt(a) for a in masks[list(purged.values())[0]].value.args
-          } == {"xp", "yp"})
+            m = mask_of(n.value.slice)
+            if m is not None:
+                purged[n.targets[0].id] = m
+    calls = {id(m[0]) for m in purged.values()}
+    ok = (set(purged) == {"xp", "yp"} and len(calls) == 1
+          and all(m[1] % 2 == 1 for m in purged.values())
+          and {txt(a) for a in list(purged.values())[0][0].args}
+          == {"xp", "yp"})
+    found = {k: f"{txt(v[0])} negated {v[1]}x" for k, v in purged.items()}
     ctx.ob("R12.4", ok,
            "events invalid in either coordinate are removed from both "
            "coordinates with one mask" if ok else
-           f"xp / yp are not purged with one common mask of "
-           f"get_bad_vals(xp, yp) (found {purged})", node=f,
+           f"xp / yp are not purged with the valid part of one common mask "
+           f"get_bad_vals(xp, yp) (found {found})", node=f,
            label="quantile: common invalid mask")
     # same normaliser for grid and events per axis
     for grid, ev in (("x", "xp"), ("y", "yp")):
@@ -1309,9 +1369,30 @@ def r124(ctx, repo):
     a = kwarg(p, "a", 0)
     qv = kwarg(p, "q", 1)
     is_pct = "percentile" in last_attr(p)
-    qt = "".join(txt(qv).split())
-    ok_q = qt in ("q*100", "100*q") if is_pct else qt == "q"
-    # q may be converted to an array before
+
+
+    def from_q(e, depth=0):
+        """`e` is the parameter q, possibly converted to an array"""
+        if depth > 6 or e is None:
+            return False
+        if isinstance(e, ast.Name):
+            if e.id == "q":
+                return True
+            vals = single.get(e.id, [])
+            return bool(vals) and all(from_q(v, depth + 1) for v in vals)
+        if isinstance(e, ast.IfExp):
+            return from_q(e.body, depth + 1) and from_q(e.orelse, depth + 1)
+        if isinstance(e, ast.Call) and last_attr(e) in (
+                "array", "asarray", "atleast_1d") and e.args:
+            return from_q(e.args[0], depth + 1)
+        return False
+    if is_pct:
+        ok_q = isinstance(qv, ast.BinOp) and isinstance(
+            qv.op, ast.Mult) and (
+            (from_q(qv.left) and txt(qv.right) in ("100", "100.0"))
+            or (from_q(qv.right) and txt(qv.left) in ("100", "100.0")))
+    else:
+        ok_q = from_q(qv)
     ok = txt(a) == dp and ok_q and last_attr(p).startswith("nan")
     ctx.ob("R12.4", ok,
            "the level is the NaN-aware q-quantile of the densities at the "
@@ -1434,6 +1515,9 @@ NONFLOAT_DTYPES = {"int", "bool", "np.int64", "np.int32", "np.uint8",
 
 
 def r128(ctx, repo):
+    """every allocation of the estimator modules is judged where it is
+    written (independent of the function that later fills the buffer, so a
+    buffer handed out by a helper counts as well)"""
     files = [KDE, KDC] + [r for r in repo.files(EXT) if r.endswith(".py")]
     n = 0
     for rel in files:
@@ -1449,21 +1533,21 @@ def r128(ctx, repo):
                     if isinstance(t, ast.Subscript) and isinstance(
                             t.value, ast.Name):
                         stored.add(t.value.id)
+            allocs = [c for c in walk(f) if isinstance(c, ast.Call)
+                      and last_attr(c) in ALLOC | ALLOC_LIKE
+                      and (call_name(c) or "").split(".")[0] in (
+                          "np", "numpy")]
+            allocs.sort(key=lambda c: (c.lineno, c.col_offset))
             floats = set()
-            allocs = []
             seen_lab = {}
-            for s in walk(f):
-                if isinstance(s, ast.Assign) and len(s.targets) == 1 \
-                        and isinstance(s.targets[0], ast.Name) \
-                        and isinstance(s.value, ast.Call):
-                    la = last_attr(s.value)
-                    nm = call_name(s.value) or ""
-                    if la in ALLOC | ALLOC_LIKE and nm.split(".")[0] in (
-                            "np", "numpy"):
-                        allocs.append((s.targets[0].id, s, la))
-            allocs.sort(key=lambda a: a[1].lineno)
-            for name, s, la in allocs:
-                c = s.value
+            for c in allocs:
+                la = last_attr(c)
+                par = c.parent
+                name = None
+                if isinstance(par, ast.Assign) and par.value is c and len(
+                        par.targets) == 1 and isinstance(
+                        par.targets[0], ast.Name):
+                    name = par.targets[0].id
                 pos = 2 if la in ("full", "full_like") else 1
                 dt = kwarg(c, "dtype", pos)
                 if dt is None:
@@ -1478,26 +1562,29 @@ def r128(ctx, repo):
                         is_float = True
                     elif d in NONFLOAT_DTYPES or d.endswith(".dtype"):
                         is_float = False
+                        if name is None or name not in stored:
+                            # an explicitly typed mask / counter that is
+                            # not filled with computed values here
+                            continue
                     else:
                         raise AnalysisError(
-                            f"{rel}::{q}: dtype `{d}` of buffer `{name}` "
+                            f"{rel}::{q}: dtype `{d}` of `{short(c, 40)}` "
                             f"not classified")
                     why = f"has dtype {d}"
-                if is_float:
+                if is_float and name:
                     floats.add(name)
-                if name not in stored:
-                    continue
                 n += 1
-                seen_lab[name] = seen_lab.get(name, 0) + 1
-                lab = name if seen_lab[name] == 1 else (
-                    f"{name} #{seen_lab[name]}")
+                base = name or la
+                seen_lab[base] = seen_lab.get(base, 0) + 1
+                lab = base if seen_lab[base] == 1 else (
+                    f"{base} #{seen_lab[base]}")
+                what = f"buffer `{name}`" if name else f"`{short(c, 40)}`"
                 ctx.ob("R12.8", is_float,
-                       f"buffer `{name}` that receives computed values is "
-                       f"allocated floating" if is_float else
-                       f"buffer `{name}` receives kernel / density values "
-                       f"but {why}: for integer-typed feature data the "
-                       f"values are truncated (a density of all zeros)",
-                       node=s, label=f"float buffer {lab}")
+                       f"{what} is allocated floating" if is_float else
+                       f"{what} receives kernel / density values but {why}: "
+                       f"for integer-typed feature data the values are "
+                       f"truncated (a density of all zeros)",
+                       node=c, label=f"float buffer {lab}")
     ctx.stat("R12.8 buffers", n)
 
 
@@ -2287,5 +2374,60 @@ MUTANTS = list(MUTANTS) + [
       ("class RTDCBase(abc.ABC):",
        "def _log_transform(a, feat):\n"
        "    return np.log10(a)\n\n\nclass RTDCBase(abc.ABC):")], "R12.2"),
+]
+
+
+TWINS = list(TWINS) + [
+    ("quantiles: tuple assignments, mask negated once, inlined return", KDC,
+     [("    bad = get_bad_vals(xp, yp)\n    xp = xp[~bad]\n"
+       "    yp = yp[~bad]\n",
+       "    valid = ~get_bad_vals(xp, yp)\n"
+       "    xp, yp = xp[valid], yp[valid]\n", 0),
+      ("    x = x / x_norm\n    xp = xp / x_norm\n",
+       "    x, xp = x / x_norm, xp / x_norm\n"),
+      ("    y = y / y_norm\n    yp = yp / y_norm\n",
+       "    y, yp = y / y_norm, yp / y_norm\n"),
+      ("    dp = spint.interpn((x, y), density,\n"
+       "                       (xp, yp),\n",
+       "    dp = spint.interpn(points=(x, y), values=density,\n"
+       "                       xi=(xp, yp),\n"),
+      ("    if not np.isscalar(q):\n        q = np.array(q)\n"
+       "    plev = np.nanpercentile(dp, q=q*100)\n    return plev\n",
+       "    quantiles = q if np.isscalar(q) else np.array(q)\n"
+       "    return np.nanpercentile(dp, q=quantiles*100)\n")]),
+    ("wrapper: output preparation in a module-level helper", KDE,
+     [("        if xout is None:\n"
+       "            density = np.zeros_like(events_x, dtype=np.float64)\n"
+       "            bad_out = bad_in\n"
+       "            xo = yo = None\n"
+       "        else:\n"
+       "            density = np.zeros_like(xout, dtype=np.float64)\n"
+       "            bad_out = get_bad_vals(xout, yout)\n"
+       "            xo = xout[~bad_out]\n"
+       "            yo = yout[~bad_out]\n",
+       "        density, bad_out, xo, yo = _prepare_output(events_x, bad_in,\n"
+       "                                                   xout, yout)\n"),
+      ("def ignore_nan_inf(kde_method):",
+       "def _prepare_output(events_x, bad_in, xout, yout):\n"
+       "    if xout is None:\n"
+       "        density = np.zeros_like(events_x, dtype=np.float64)\n"
+       "        bad_out = bad_in\n"
+       "        xo = yo = None\n"
+       "    else:\n"
+       "        density = np.zeros_like(xout, dtype=np.float64)\n"
+       "        bad_out = get_bad_vals(xout, yout)\n"
+       "        xo = xout[~bad_out]\n"
+       "        yo = yout[~bad_out]\n"
+       "    return density, bad_out, xo, yo\n\n\n"
+       "def ignore_nan_inf(kde_method):")]),
+]
+
+MUTANTS = list(MUTANTS) + [
+    ("quantiles: events kept where the mask says invalid", KDC,
+     ("    xp = xp[~bad]\n    yp = yp[~bad]\n",
+      "    xp = xp[bad]\n    yp = yp[bad]\n", 0), "R12.4"),
+    ("kde_none: ones of the position dtype", KDE,
+     ("    return np.ones(xout.shape)", "    return np.ones_like(xout)"),
+     "R12.8"),
 ]
 
